@@ -3,7 +3,7 @@
 Pure Python over the JSON facts written by driver/ (factgen).  Nothing of the
 analysed crate is executed.
 """
-import json, os, sys
+import json, os, re, sys
 from collections import defaultdict
 
 
@@ -621,6 +621,21 @@ def _thread_result_returns(j, cj, off_b, off_l, call_t):
             thread(r2, pv)
 
 
+def _generic_instance(facts, fn_id, substs):
+    """{type parameter name: concrete type} for a call of the generic function fn_id with `substs` (positional, as rustc
+    lists them: lifetimes and types together); only parameters instantiated with something that is not itself a bare
+    generic parameter name are mapped"""
+    fn = facts.fns.get(fn_id) or {}
+    params = {n_: i for i, n_ in enumerate(fn.get('generics') or []) if isinstance(n_, str) and not n_.startswith("'")}
+    out = {}
+    for name, i in params.items():
+        if i < len(substs):
+            v = substs[i]
+            if isinstance(v, str) and v != name and not re.fullmatch(r'[A-Z]\w{0,2}', v) and not v.startswith("'"):
+                out[name] = v
+    return out
+
+
 def inline_helpers(body, is_helper, depth=2, max_blocks=4000):
     """A copy of `body` in which every call to a crate-local function accepted by `is_helper(callee_body)` is replaced
     by the callee's own blocks (arguments assigned to the callee's parameters, its return value assigned to the call's
@@ -653,7 +668,23 @@ def inline_helpers(body, is_helper, depth=2, max_blocks=4000):
         off_p = len(j.setdefault('promoted', []))
         j['promoted'].extend(json.loads(json.dumps(cb.j.get('promoted', []))))
         cj = _renumber(cb.j['blocks'], off_l, off_b, off_p)
-        j['locals'].extend(json.loads(json.dumps(cb.j['locals'])))
+        new_locals = json.loads(json.dumps(cb.j['locals']))
+        # a generic helper is spliced as the instance this call site names: `read_identifier::<i32, _>(..)` reads an i32
+        gmap = _generic_instance(facts, cb.id, t.get('substs') or [])
+        if gmap:
+            rx = re.compile(r'(?<![\w:])(%s)(?![\w])' % '|'.join(re.escape(k) for k in gmap))
+            sub = lambda x: rx.sub(lambda m: gmap[m.group(1)], x) if isinstance(x, str) else x
+            for cblk in cj:
+                ct = cblk['term']
+                if ct.get('k') == 'call':
+                    if ct.get('substs'):
+                        ct['substs'] = [sub(x) for x in ct['substs']]
+                    if ct.get('arg_tys'):
+                        ct['arg_tys'] = [sub(x) for x in ct['arg_tys']]
+            for lc in new_locals:
+                if isinstance(lc, dict) and 'ty' in lc:
+                    lc['ty'] = sub(lc['ty'])
+        j['locals'].extend(new_locals)
         sp = t.get('span')
         for i, a in enumerate(t['args']):
             blk['stmts'].append({'assign': {'l': off_l + 1 + i}, 'rv': {'k': 'use', 'op': a}, 'span': sp})
